@@ -1,5 +1,6 @@
 """Harness-facing API: one handle `sx` used identically in symbolic and concrete (replay) runs."""
 import hashlib
+import os
 import json
 import z3
 from . import core
@@ -35,7 +36,7 @@ class Sx:
         self.samples = {}         # cover label -> one concrete witness
         self.inputs = {}
         self.conc_failures = []
-        self.max_violations = 3
+        self.max_violations = int(os.environ.get("VERIF_MAX_VIOLATIONS", "3"))
         self.known = {}           # id -> True (enabled known-finding classes)
         self.decl = {}
 
@@ -236,8 +237,7 @@ class Sx:
                 CTX.model = None
                 if not CTX._check():
                     raise PathAbort()
-            else:
-                raise PathAbort()
+            # a concretely false condition: recorded; the harness decides how to go on
         return ok
 
     def fail(self, label, info=None, known=None):
